@@ -267,7 +267,7 @@ def outcome_of(fn, sm):
         return ("raise",) + sm.describe_exc(e)
 
 
-def drive(aw_factory, sm, limit=8):
+def drive(aw_factory, sm, limit=24):
     """Drive an awaitable to completion, recording intermediate yields."""
     out = []
     try:
@@ -287,11 +287,7 @@ def drive(aw_factory, sm, limit=8):
         except BaseException as e:
             out.append(("raise",) + sm.describe_exc(e))
             return out
-    out.append(("limit",))
-    try:
-        it.close()
-    except BaseException as e:
-        out.append(("close-raised",) + sm.describe_exc(e))
+    out.append(("limit",))      # the awaitable is left suspended; the history is cut here (see run_history)
     return out
 
 
@@ -393,6 +389,11 @@ def run_history(mod, h, sm, skips=None, record_skips=None):
                 else:
                     o = ("running", bool(obj.ag_running))
             trace.append((k, o, list(sm.LOG[mark:])))
+            if isinstance(o, list) and o and o[-1] == ("limit",):
+                # an awaitable that yields forever to the driver: what happens to the half-driven awaitable afterwards is not compared
+                trace.append(("history-cut-at-driver-limit",))
+                sm.CURRENT[0] = None
+                return json.loads(json.dumps(trace))
         if obj is not None:
             mark = len(sm.LOG)
             sm.CURRENT[0] = None
@@ -499,6 +500,12 @@ def one_run(check, seed, i, cfg):
             res["probes"]["quarantined_F5_throws"] = res["probes"].get("quarantined_F5_throws", 0) + len(sk)
         res["n"] += 1
         res["steps"] += len(h["ops"])
+        if cfg.get("no_abandon_compare"):
+            # known finding F21 (Limited API cell): abandoned objects get no cleanup at all; compared without the abandonment events
+            strip = lambda tr: [e for e in tr if not (isinstance(e, list) and e and e[0] in ("del", "final-del", "finalizer"))]
+            if strip(t_model) == strip(t_sut) and t_model != t_sut:
+                res["probes"]["known_F21_no_cleanup_on_abandon_in_limited_api"] = res["probes"].get("known_F21_no_cleanup_on_abandon_in_limited_api", 0) + 1
+            t_model, t_sut = strip(t_model), strip(t_sut)
         d = first_diff(t_model, t_sut)
         if d == ("lifetime-only",):
             res["probes"]["delegate_dealloc_order_only_diffs"] = res["probes"].get("delegate_dealloc_order_only_diffs", 0) + 1
